@@ -33,7 +33,7 @@ RULE = ("cases = (run scripts, limit, delay, driver script); distinct = canonica
         "an external call during a run / during the restart delay")
 REQUIRED_BUCKETS = ["outcome:ret", "outcome:exc", "outcome:base", "outcome:block", "restart-observed",
                     "limit-exhausted", "limit:0", "limit:None", "delay:0", "delay:2", "delay:fractional", "helper:cancel_and_await",
-                    "helper:on-cancel-exc", "helper:done-exception", "stop-during-run",
+                    "helper:on-cancel-exc", "helper:done-exception", "helper:second-stop-request-during-clean-up", "stop-during-run",
                     "stop-during-restart-delay", "stop-before-start", "stop-after-completion", "double-start",
                     "cancel-swallowed", "cancel-converted-to-exception", "extra-task", "service-multi-task",
                     "run-group", "run-group:actors-share-a-name", "restart-after-done",
@@ -88,7 +88,9 @@ def gen(rng: Any, tier: str, i: int) -> Any:
         # pools use to stop their tasks)
         return {"kind": "helper", "state": rng.choice(["running", "running", "running", "done-result", "done-exception"]),
                 "on_cancel": rng.choice(["propagate", "exc", "exc-after-cleanup", "swallow"]),
-                "cleanup": rng.choice([0.0, 0.5, 3.0])}
+                "cleanup": rng.choice([0.0, 0.5, 3.0]),
+                # a second caller asks for the same task to be stopped while its clean-up is still running
+                "second_after": rng.choice([None, None, 0.1])}
     if kind == "service" and rng.random() < 0.35:
         # the service used as a context manager: leaving the block (normally or through an exception of the body)
         # stops it, and that stop surfaces the errors of its tasks like any other stop
@@ -686,6 +688,20 @@ async def _drive_helper(case: dict[str, Any], out: dict[str, Any]) -> None:
     await asyncio.sleep(0.25)
     out["done_before"] = task.done()
     out["called_at"] = loop.time()
+
+    async def second_caller() -> None:
+        await asyncio.sleep(case["second_after"])
+        sec: dict[str, Any] = {"called_at": loop.time(), "done_before": task.done()}
+        try:
+            await cancel_and_await(task)
+            sec["raised"] = None
+        except BaseException as e:  # pylint: disable=broad-except
+            sec["raised"] = type(e).__name__
+        sec["returned_at"] = loop.time()
+        sec["done_at_return"] = task.done()
+        out["second"] = sec
+
+    second = asyncio.create_task(second_caller()) if case.get("second_after") else None
     try:
         await cancel_and_await(task)
         out["raised"] = None
@@ -693,6 +709,8 @@ async def _drive_helper(case: dict[str, Any], out: dict[str, Any]) -> None:
         out["raised"] = type(e).__name__
     out["returned_at"] = loop.time()
     out["done_after"] = task.done()
+    if second is not None:
+        await asyncio.wait([second], timeout=10)
     if not task.done():
         task.cancel()
     try:
@@ -710,6 +728,13 @@ def _judge_helper(case: dict[str, Any], out: dict[str, Any], rec: Any) -> None:
     if not out.get("done_after"):
         rec.violation("cancel_and_await-returned-before-the-task-finished", w)
         return
+    sec = out.get("second")
+    if sec is not None and not sec["done_before"]:
+        # the second request arrived while the task was still cleaning up: it, too, returns only once the task is done
+        rec.bucket("helper:second-stop-request-during-clean-up")
+        if not sec["done_at_return"]:
+            rec.violation("cancel_and_await-returned-before-the-task-finished", {**w, "caller": "second"})
+        return  # (the second cancellation cuts the clean-up short: the first caller's timing is not the scripted one)
     if case["state"] != "running":
         # documented: exits immediately if the task is already done
         if out["returned_at"] != out["called_at"] or out["raised"] is not None:
